@@ -183,6 +183,19 @@ def run(ctx):
         ctx.verdict(okf and n_upd >= 4, rule, rule + ':finite-payoffs', 'every terminal\'s payoff sum passes is_finite before it enters the range computation', gi.where(0), '%d range updates, all on the finite edge: %s' % (n_upd, okf),
                     breaks='non-finite payoffs reach the solver')
 
+    import props.c15 as c15
+    c15.payoff_source(ctx, 'C17')
+    # ---------------- (3b) trailing input: a JSON document must be the whole input
+    rule = 'C17.json-whole-input'
+    for f in b.non_test_fns():
+        des = [(bi, t) for bi, t, p in f.calls() if short(p) == 'deserialize' and any('serde_json' in str(a.get('pl', {}).get('ty', '')) and 'Deserializer' in str(a.get('pl', {}).get('ty', '')) for a in t['args'])]
+        if not des:
+            continue
+        ctx.touch(f)
+        ends = [bi for bi, t, p in f.calls() if short(p) == 'end' and 'serde_json' in p and 'Deserializer' in p]
+        ok = bool(ends) and all(any(f.dominates(d, e) for e in ends) for d, _ in des)
+        ctx.verdict(ok, rule, '%s:%s' % (rule, q.top(f.name)), 'a hand-rolled serde_json::Deserializer must be followed by end(): trailing bytes after the first JSON value are an error (serde_json::from_str / from_reader do this themselves)',
+                    f.where(des[0][0]), 'deserialize() through a raw Deserializer, end() called afterwards: %s' % ok, breaks='malformed input (a valid game followed by garbage) is solved instead of rejected')
     # ---------------- (4) diagnostics <-> README
     rule = 'C17.readme-anchors'
     heads = readme_error_headings(ctx.repo)
